@@ -1451,6 +1451,10 @@ func checkEquality(v1, v2 reflect.Value) bool {
 	}
 
 	kind := v1.Kind()
+	if (isInt(kind) || isUint(kind)) && isFloat(v2.Kind()) {
+		// a float operand makes the comparison floating-point, whichever side it is on
+		return toFloat(v1) == v2.Float()
+	}
 	if isInt(kind) {
 		return v1.Int() == toInt(v2)
 	}
